@@ -4,7 +4,7 @@ import time, z3
 from .types import *
 from .state import *
 from .ast import TU, ExtractionError, params, body, ctor_inits, src_range
-from .vcg import Exec, Ctx, LoopSpec, LObj, LScal, LElem, LVar
+from .vcg import Exec, Ctx, LoopSpec, LObj, LScal, LElem, LVar, ElemInv
 from . import models
 
 I = z3.IntVal
@@ -88,7 +88,7 @@ def verify(contract, scratch, tucache):
     exs = []
     for ci, case in enumerate(contract.cases):
         ex = Exec(tu, fn, contract.short() + (f'@{ci}' if len(contract.cases) > 1 else ''))
-        ex.loops = contract.loops
+        ex.loops = contract.loops_for(ci) if hasattr(contract, 'loops_for') else contract.loops
         ex.calls = contract.calls
         ex.default_tags = set(contract.tags)
         ex.fn_returns_ref = contract.returns_ref
@@ -115,11 +115,18 @@ def verify(contract, scratch, tucache):
         for g, srt in contract.ghosts.items():
             ex.ghosts[g] = z3.Int('ghost:' + g) if srt == 'int' else z3.Real('ghost:' + g)
         ex.args0 = args
+        ex.unit_ghosts = dict(ex.ghosts)
         cx0 = Ctx(ex, st, st, args)
         contract.setup(cx0)
         reqs = contract.requires(cx0)
+        ex.elem_inv = {}
         for lab, f in reqs:
-            st.assume(f)
+            if isinstance(f, ElemInv):
+                ct_ = parse_type_str('float' if f.kind == 'real' else 'unsigned int')
+                st.array(f.region, f.leaf, ct_)        # make sure the entry array exists
+                ex.elem_inv[(f.region, f.leaf)] = (lambda fn: (lambda s_, k_, v_: fn(Ctx(ex, s_, None, args), k_, v_)))(f.fn)
+            else:
+                st.assume(f)
         ex.requires_pc = list(st.pc)
         entry = st.copy()
         ex.entry = entry
@@ -128,9 +135,7 @@ def verify(contract, scratch, tucache):
         # constructors: member initialisers first
         inits = ctor_inits(fn)
         if inits:
-            if not hasattr(contract, 'run_inits'):
-                raise ExtractionError(f'{contract.name}: constructor initialisers need a run_inits hook')
-            contract.run_inits(ex, st, inits, cx0)
+            run_inits(ex, st, inits, contract)
         outs = ex.exec(body(fn), st)
         nposts = 0
         for (s, flow) in outs:
@@ -149,6 +154,95 @@ def verify(contract, scratch, tucache):
     return exs, info
 
 
+def store_field(ex, st, obj, name, tnode, v):
+    """member initialiser: this->name = v"""
+    path = f'{obj}.{name}'
+    ct = parse_type(tnode)
+    ex.logw(('s', path))
+    if ct.kind in ('int', 'float'):
+        if isinstance(v, BoolV):
+            v = ex.coerce(v, ct)
+        if ct.kind == 'float' and isinstance(v, IntV):
+            v = RealV(z3.ToReal(v.t), ct)
+        if ct.kind == 'int' and isinstance(v, IntV):
+            v = IntV(v.t, ct)
+        st.scal[path] = v
+        return
+    if ct.kind == 'ptr' and isinstance(v, PtrV):
+        if v.region and v.region.startswith('new:'):
+            adopt_region(st, v.region, path)
+            v = PtrV(path, v.off, ct)
+        st.scal[path] = v
+        return
+    if isinstance(v, ObjRef):
+        k = class_kind(ct.name) if ct.kind == 'class' else 'ptr'
+        if k in ('vector', 'marray') :
+            # by-value copy of a container into the member
+            for key in list(st.arr):
+                if key[0] == v.name:
+                    st.arr[(path, key[1])] = st.arr[key]
+            st.length[path] = st.len_of(v.name)
+            if v.name in st.dims:
+                st.dims[path] = st.dims[v.name]
+            return
+        st.scal[path] = v
+        return
+    if isinstance(v, Opaque) and v.what.startswith('empty:') and ct.kind == 'class' and class_kind(ct.name) in ('vector', 'queue'):
+        st.length[path] = I(0)
+        return
+    if isinstance(v, (Opaque, StructV)) or v is None:
+        st.scal[path] = v
+        return
+    raise ExtractionError(f'member initialiser {path} = {v}')
+
+
+def adopt_region(st, old, new):
+    for key in list(st.arr):
+        if key[0] == old:
+            st.arr[(new, key[1])] = st.arr.pop(key)
+    if old in st.length:
+        st.length[new] = st.length.pop(old)
+
+
+def run_inits(ex, st, inits, contract):
+    for ini in inits:
+        e = ini['inner'][0] if ini.get('inner') else None
+        if 'baseInit' in ini or 'delegatingInit' in ini:
+            bt = strip_quals((ini.get('baseInit') or ini.get('delegatingInit'))['qualType'])
+            ce = e
+            while ce['kind'] in ('ExprWithCleanups', 'CXXBindTemporaryExpr', 'MaterializeTemporaryExpr'):
+                ce = ce['inner'][0]
+            if ce['kind'] != 'CXXConstructExpr':
+                raise ExtractionError(f'{contract.name}: base initialiser is {ce["kind"]}')
+            nargs = len(ce.get('inner', []))
+            use = (contract.calls or {}).get(f'ctor:{bt}/{nargs}') or (contract.calls or {}).get('ctor:' + bt)
+            if use is None:
+                raise ExtractionError(f'{contract.name}: no contract for base constructor {bt}')
+            # overload actually chosen by clang: number and types of parameters of the constructor
+            use.ctor_type = ce.get('type', {}).get('qualType')
+            use(ex, ce, st, None, ce.get('inner', []), this_override='this')
+        elif 'anyInit' in ini:
+            m = ini['anyInit']
+            hook = getattr(contract, 'init_' + m['name'], None)
+            if hook is not None:
+                hook(ex, st, e)
+                continue
+            ex.pending_name = m['name']
+            try:
+                ct = parse_type(m['type'])
+                if e['kind'] in ('ExprWithCleanups',):
+                    e = e['inner'][0]
+                if ct.kind == 'class' and not pod_of(ct.name) and e.get('kind') != 'CXXConstructExpr':
+                    v = ex.ev_obj(e, st)
+                else:
+                    v = ex.ev(e, st)
+            finally:
+                ex.pending_name = None
+            store_field(ex, st, 'this', m['name'], m['type'], v)
+        else:
+            raise ExtractionError(f'{contract.name}: unknown initialiser form')
+
+
 def normalise_target(t):
     return tuple(t)
 
@@ -159,18 +253,18 @@ class Use:
     def __init__(self, contract, inst=None, tags=None):
         self.c, self.inst, self.tags = contract, inst, tags
 
-    def __call__(self, ex, n, st, objn, argn):
+    def __call__(self, ex, n, st, objn, argn, this_override=None):
         c = self.c
-        this = None
+        this = this_override
         if objn is not None:
             o = ex.ev_obj(objn, st)
             if not isinstance(o, ObjRef):
                 raise ExtractionError(f'call of {c.name}: receiver {o}')
             this = o.name
         vals = []
-        for a in argn:
+        for ai, a in enumerate(argn):
             if a.get('kind') == 'CXXDefaultArgExpr' and not a.get('inner'):
-                vals.append(None)
+                vals.append(default_arg(ex, n, st, ai))
                 continue
             ct = parse_type(a['type'])
             if a.get('valueCategory') == 'lvalue' and ct.kind == 'class':
@@ -187,6 +281,11 @@ class Use:
         c.setup(cx)
         # preconditions do not mention ghosts of the callee
         for lab, f in c.requires(cx):
+            if isinstance(f, ElemInv):
+                region = f.region.replace('this', this or 'this', 1) if f.region.startswith('this') else f.region
+                ct_ = parse_type_str('float' if f.kind == 'real' else 'unsigned int')
+                k_ = State.fresh('k!pre', z3.IntSort())
+                f = f.fn(cx, k_, z3.Select(st.array(region, f.leaf, ct_), k_))
             ex.oblig(st, f'pre.{c.short()}.{lab}.L{ex.curline}', f, 'precondition', tags)
         # havoc frame
         for t in c.assigns(cx):
@@ -209,14 +308,15 @@ class Use:
                             a = st.arr[key]
                             fresh = State.fresh(region, a.sort())
                             k = z3.Int('k!frame')
-                            st.assume(z3.ForAll([k], z3.Implies(z3.Or(k < lo, k >= hi), z3.Select(fresh, k) == z3.Select(a, k))))
-                            st.arr[key] = fresh
+                            st.arr[key] = z3.Lambda([k], z3.If(z3.And(k >= lo, k < hi), z3.Select(fresh, k), z3.Select(a, k)))
                     ex.frame_range(st, region, lo, hi)
                 ex.logw(('r', region))
             elif t[0] == 'len':
                 st.length[t[1]] = State.fresh(f'len({t[1]})', z3.IntSort())
                 st.assume(st.length[t[1]] >= 0)
                 ex.logw(('len', t[1]))
+        if hasattr(c, 'effect'):
+            c.effect(Ctx(ex, st, pre, args, this=this or 'this'))
         insts = self.inst(Ctx(ex, st, pre, args, this=this or 'this')) if self.inst else [None]
         for inst in insts:
             if inst is None:
@@ -232,6 +332,32 @@ class Use:
         ex.ghosts = saved_g
         r = c.result(Ctx(ex, st, pre, args, this=this or 'this'))
         return r if r is not None else VoidV()
+
+
+def default_arg(ex, n, st, ai):
+    """value of the ai-th parameter's default argument, from the callee's declaration"""
+    did = None
+    c = n['inner'][0] if n.get('inner') else None
+    while c is not None and c.get('kind') in ('ImplicitCastExpr', 'ParenExpr'):
+        c = c['inner'][0]
+    if c is not None and c.get('kind') == 'MemberExpr':
+        did = c.get('referencedMemberDecl')
+    elif c is not None and c.get('kind') == 'DeclRefExpr':
+        did = c['referencedDecl']['id']
+    d = ex.tu.byid.get(did)
+    if d is None:
+        raise ExtractionError(f'{ex.unit}: default argument of unknown callee (line {ex.curline})')
+    ps = params(d)
+    p = ps[ai]
+    e = [x for x in p.get('inner', []) if x.get('kind') and not x['kind'].endswith(('Attr', 'Comment', 'Decl'))]
+    if not e:
+        prev = ex.tu.byid.get(d.get('previousDecl'))
+        if prev:
+            p = params(prev)[ai]
+            e = [x for x in p.get('inner', []) if x.get('kind') and not x['kind'].endswith(('Attr', 'Comment', 'Decl'))]
+    if not e:
+        raise ExtractionError(f'{ex.unit}: no default argument expression found (line {ex.curline})')
+    return ex.ev(e[0], st)
 
 
 class TUCache:
